@@ -24,7 +24,7 @@ func TestVerifC06_LibHeaderTail(t *testing.T) {
 		n := rapid.SampledFrom([]int{0, 1, 2, 5, 30, 99, 100, 101, 199, 200, 201, 350}).Draw(t, "n")
 		lines := make([]string, n)
 		for i := range lines {
-			lines[i] = fmt.Sprintf("%s%d%s", rapid.SampledFrom([]string{"a", "b", "ab ", " x", ""}).Draw(t, "w"), i, rapid.SampledFrom([]string{"", "", "", "  ", "\t"}).Draw(t, "trailing"))
+			lines[i] = fmt.Sprintf("%s%d%s", rapid.SampledFrom([]string{"a", "b", "ab ", " x", "", "é", "\uFFFD", "漢\uFFFDa"}).Draw(t, "w"), i, rapid.SampledFrom([]string{"", "", "", "  ", "\t"}).Draw(t, "trailing"))
 		}
 		header := rapid.SampledFrom([]int{0, 0, 1, 2, 5, 100, 101}).Draw(t, "header")
 		tail := rapid.SampledFrom([]int{0, 0, 1, 2, 3, 50, 99, 100, 101, 150, 200, 400}).Draw(t, "tail")
@@ -82,7 +82,7 @@ func TestVerifC07_LibOriginalLine(t *testing.T) {
 	rapid.Check(t, func(t *rapid.T) {
 		delim := rapid.SampledFrom([]string{"", ",", ":", "\t", "[,;]+"}).Draw(t, "delim")
 		d := oracle.Delim{Kind: oracle.DelimAwk}
-		alpha := []rune("abcAB  ,;:\t1_é")
+		alpha := []rune("abcAB  ,;:\t1_é\uFFFD漢")
 		nlines := rapid.IntRange(0, 30).Draw(t, "nlines")
 		lines := make([]string, nlines)
 		for i := range lines {
